@@ -9,7 +9,7 @@
 (* it), first_interesting_column, merge flag.  The pair table's slot layout    *)
 (* is not observable through the sketch (it is OR-ed, XOR-ed or sorted) and is *)
 (* specified separately in PairTable.tla; here the table is a set of pairs.    *)
-EXTENDS Integers, Sequences, FiniteSets, TLC
+EXTENDS Integers, Sequences, FiniteSets, TLC, SequencesExt
 
 CONSTANTS NumCols,   \* 64
           WinBits,   \* 8
@@ -25,7 +25,8 @@ MinOf(S) == CHOOSE x \in S : \A y \in S : x <= y
 NewCpc(lgk) ==
   [lgk |-> lgk, c |-> 0, off |-> 0, fic |-> 0, win |-> <<>>, tab |-> {}, merged |-> FALSE]
 
-Windowed(st) == st.win # <<>>
+\* (DOMAIN, not a comparison of the k-sized function with the empty tuple: that costs time proportional to k)
+Windowed(st) == DOMAIN st.win # {}
 
 \* determine_correct_offset
 CorrectOffset(k, c) == IF 8 * c - OffBase * k < 0 THEN 0 ELSE (8 * c - OffBase * k) \div (8 * k)
@@ -88,10 +89,30 @@ Flavor(k, c) ==
   ELSE IF 8 * c < (OffBase + 8) * k THEN "pinned"
   ELSE "sliding"
 
+(* ---- image format selectors ------------------------------------------------- *)
+\* Which code table encodes the window bytes is not stored in the image: writer and reader derive a
+\* pseudo-phase from (lg_k, number of coupons); the thresholds are part of the cross-language format.
+PseudoPhase(lgk, c) ==
+  LET k == P2(lgk) IN
+  IF 1000 * c < 2375 * k
+  THEN IF 4 * c < 3 * k THEN 16
+       ELSE IF 10 * c < 11 * k THEN 17
+       ELSE IF 100 * c < 132 * k THEN 18
+       ELSE IF 3 * c < 5 * k THEN 19
+       ELSE IF 1000 * c < 1965 * k THEN 20
+       ELSE IF 1000 * c < 2275 * k THEN 21
+       ELSE 6
+  ELSE (c \div P2(lgk - 4)) % 16
+\* Golomb base bits of the pair stream: floor(log2(floor(k / pairs))), 0 when pairs >= k
+RECURSIVE FloorLg2(_)
+FloorLg2(x) == IF x <= 1 THEN 0 ELSE 1 + FloorLg2(x \div 2)
+GolombBaseBits(lgk, pairs) == IF pairs = 0 THEN 0 ELSE FloorLg2(P2(lgk) \div pairs)
+\* pairs in the encoded stream: a Hybrid image folds the window back into the pair list
+EncodedPairs(st) == IF Flavor(KOf(st), st.c) = "hybrid" THEN st.c ELSE Cardinality(st.tab)
+
 (* ---- invariants (C05) ------------------------------------------------------ *)
-CountBits(m) == LET RECURSIVE S(_)
-                    S(T) == IF T = {} THEN 0 ELSE LET i == CHOOSE x \in T : TRUE IN Cardinality(m[i]) + S(T \ {i})
-                IN S(DOMAIN m)
+\* (a fold over the rows 0..k-1; a recursion over the domain as a set is quadratic in k)
+CountBits(m) == FoldLeft(LAMBDA acc, i : acc + Cardinality(m[i]), 0, [j \in 1..Cardinality(DOMAIN m) |-> j - 1])
 
 \* bits: the model matrix (row -> set of columns) of the distinct coupons offered
 MatrixOK(st, bits) == Matrix(st) = bits
